@@ -199,6 +199,20 @@ def gen_scalar_program(rng, i, jit):
             e = X.bi("mul", X.un("call1", v, f="exp"), X.un("call1", X.un("call1", X.un("neg", a), f="exp"), f="abs"))
         if rng.random() < 0.5:
             e = X.bi(rng.choice(["add", "mul"]), gen.gen(2, "any"), e)
+    if family is None and not top_cmp and rng.random() < 0.03 and variables:
+        # regression family: `k*log(m)` is folded into `log(m**k)` by sympy's simplification, and the derivative of
+        # `k*m**v` is `m**v*log(m**k)`: an integer far beyond int64 in the generated code (proposed fix
+        # notes/proposed_fixes/C11-huge-integer-literal.diff)
+        family = "log-of-integer-power"
+        v = X.var(rng.choice(sorted(variables)))
+        k, m = rng.choice([("30", "9"), ("48", "7"), ("64", "3"), ("25", "12")])
+        if rng.random() < 0.5:
+            e = X.bi("mul", X.bi("mul", X.num(k), X.un("call1", X.num(m), f="log")), v)
+        else:
+            e = X.bi("mul", X.num(k), X.bi("call2", X.num(m), X.bi("div", v, X.num("4")), f="pow"))
+            diffable = True
+        if rng.random() < 0.5:
+            e = X.bi("add", gen.gen(2, "any") if not diffable else X.bi("mul", v, v), e)
     # signature: order, synonyms, repl
     sig_names = list(names) + ([indexed_var] if indexed_var else [])
     rng.shuffle(sig_names)
@@ -658,7 +672,10 @@ def worker(prog):
 
 
 def _exc(ex):
-    return f"{type(ex).__name__}: {str(ex)[:160]}"
+    full = str(ex)
+    # numba reports the decisive line deep inside a long message: keep it for the structural key
+    extra = " [Int value is too large]" if "Int value is too large" in full[160:] else ""
+    return f"{type(ex).__name__}: {full[:160]}{extra}"
 
 
 def numba_tag():
@@ -1173,7 +1190,9 @@ def run(ctx):
             continue
         judge_program(ctx, p, res, ("Q", aQ[1]) if aQ else ("F", aF[1]), aF[1], stats)
     ctx.extra["programs"] = len(progs)
-    ctx.extra["disagreements_checked"] = ctx.impl_traces
+    # translated functions whose values were compared: distinct (program, route) pairs with at least one compared point
+    # (`traces_validated_against_impl` counts all observations, `monitor_evaluations_on_real_code` the compared ones)
+    ctx.extra["disagreements_checked"] = len(ctx.extra.pop("_pairs", ()))
     ctx.extra["points"] = dict(stats)
     tot = max(1, stats["points"])
     ctx.extra["fraction_well_conditioned_points"] = round(stats["ok"] / tot, 4)
@@ -1351,6 +1370,7 @@ def judge_program(ctx, p, res, ans_main, ansF, stats):
             continue
         _, lv, pv = st
         ctx.monitor_evals += 1
+        ctx.extra.setdefault("_pairs", set()).add((p["id"], base))
         ctx.hist("route", base)
         c = dict(case, route=route, point=ipt, comp=comp)
         tol = TOL
@@ -1385,6 +1405,9 @@ def finding_key(p, route, msg):
     key = {"kind": p["kind"], "route": base}
     if msg:
         key["error"] = msg.split(":")[0]
+    if "of type int which has no callable" in msg or ("int too big" in msg.lower()) or "Int value is too large" in msg:
+        key.update({"call_site": "make_expression_function (sympy printer)",
+                    "symptom": "integer literal beyond int64 reaches a numpy ufunc"})
     if "name 're' is not defined" in msg or "name 'im' is not defined" in msg:
         key.update({"call_site": "ExpressionBase.__init__ (sympy.simplify)",
                     "symptom": "Abs of an exponential becomes re(): NameError"})
